@@ -166,7 +166,10 @@ Fixpoint unescape_loop (fuel : nat) (rem acc : list N) {struct fuel} : M (list N
       else if starts_with (BS "&#x") rem then
         match find_byte 59 rem with
         | Some endpos =>
-          match from_str_radix_u 32 16 (firstn (endpos - 3) (skipn 3 rem)) with
+          (* if let (false, Ok(hexval)) = (hextxt.starts_with('+'), u32::from_str_radix(hextxt, 16)) *)
+          let hextxt := firstn (endpos - 3) (skipn 3 rem) in
+          if starts_with [43] hextxt then invalid else
+          match from_str_radix_u 32 16 hextxt with
           | Some v => if is_char v then unescape_loop f (skipn (S endpos) rem) (acc ++ utf8_encode v) else invalid
           | None => invalid
           end
@@ -175,7 +178,9 @@ Fixpoint unescape_loop (fuel : nat) (rem acc : list N) {struct fuel} : M (list N
       else if starts_with (BS "&#") rem then
         match find_byte 59 rem with
         | Some endpos =>
-          match from_str_radix_u 32 10 (firstn (endpos - 2) (skipn 2 rem)) with
+          let numtxt := firstn (endpos - 2) (skipn 2 rem) in
+          if starts_with [43] numtxt then invalid else
+          match from_str_radix_u 32 10 numtxt with
           | Some v => if is_char v then unescape_loop f (skipn (S endpos) rem) (acc ++ utf8_encode v) else invalid
           | None => invalid
           end
@@ -459,6 +464,12 @@ Fixpoint pe_loop (rec : N -> etype -> list (N * cdata) -> option (list N) -> lis
        do spec <- lift (chardata_spec T ty);
        match spec with
        | Some cs =>
+         (* a character data element holds exactly one value (fix 3656060) *)
+         do mode <- lift (content_mode T ty);
+         if (mode =? MCharacters) && negb (match content with [] => true | _ => false end) then
+           optional_error CharacterContentForbidden name 0;;
+           loop content elem_idx short_name_found stored_comment path
+         else
          do value <- parse_character_data text cs;
          do isr <- lift (is_ref T ty);
          (match value with
